@@ -242,10 +242,11 @@ func cmdCheck(o opts, prop, tier string) int {
 			}
 			continue
 		}
-		if !contractServes(c, prop) && !(prop == "C20" && c.Flags["sweep"]) {
+		sweep := prop == "C20" && !c.Flags["nosweep"]
+		if !contractServes(c, prop) && !sweep {
 			continue
 		}
-		f, err := e.verifyFunction(fn, prop == "C20" && c.Flags["sweep"])
+		f, err := e.verifyFunction(fn, sweep)
 		if err != nil {
 			engineErrs = append(engineErrs, err.Error())
 			continue
